@@ -56,6 +56,20 @@ impl<const N: usize> Matrix<N, N> {
     }
 }
 
+impl Matrix<2, 2> {
+    /// Remove what rounding errors can do to a covariance matrix when it is close to
+    /// singular: negative variances and a covariance larger than the variances allow.
+    pub fn clamp_to_covariance(self) -> Self {
+        let a = self.data[0][0].max(0.0);
+        let d = self.data[1][1].max(0.0);
+        let limit = (a * d).sqrt();
+        let b = ((self.data[0][1] + self.data[1][0]) / 2.).clamp(-limit, limit);
+        Matrix {
+            data: [[a, b], [b, d]],
+        }
+    }
+}
+
 impl Matrix<1, 1> {
     pub fn inverse(self) -> Self {
         Matrix {
